@@ -233,6 +233,31 @@ Definition unlinks (op : fsop) (n : name) : bool :=
   | _ => false
   end.
 
+(* ---- results moved into the pack (update_pack) -----------------------------------------
+   [covers c n]: the byte string c is a pack that contains the key of the result file n with the
+   value that file holds.  [covered s pk n]: in EVERY view of the pack name pk - the volatile
+   binding and every binding a power loss at this instant may leave - pk refers to a file whose
+   volatile and durable contents are such packs.  The harness evaluates it at every unlink that
+   update_pack issues. *)
+Definition pack_view_covers (covers : cid -> name -> bool) (s : fs) (n : name) (b : option inoid) : bool :=
+  match b with
+  | Some i =>
+      match i_data (inodes s i), i_synced (inodes s i) with
+      | Cid c, Cid c' => covers c n && covers c' n
+      | _, _ => false
+      end
+  | None => false
+  end.
+
+Definition covered (covers : cid -> name -> bool) (s : fs) (pk n : name) : bool :=
+  forallb (pack_view_covers covers s n) (vol s pk :: pl_bindings s pk).
+
+Definition makes_dir (op : fsop) (d : dirid) : bool :=
+  match op with
+  | Mkdir e => Pos.eqb e d
+  | _ => false
+  end.
+
 (* ---- helpers for the generated correspondence cases --------------------------------- *)
 Definition opt_content_eqb (a b : option content) : bool :=
   match a, b with
